@@ -30,6 +30,9 @@ TEXTS = {
     # erroneous inputs that do not start with their first token
     "erroneous-leading-newline": "\n{ a = ; }\n",
     "erroneous-leading-space": " { a = 1; }}\n",
+    # stray commas in a formals list (the only error in the file)
+    "erroneous-double-comma-formals": "{ a,, b }:\n{\n  a = 1;\n  b = 2;\n}\n",
+    "erroneous-leading-comma-formals": "{ , pkgs }:\n{\n  a = 1;\n}\n",
     # a name written with a combining character (Nix compares names by code points: this is not the precomposed spelling)
     "decomposed-name": "{\n  \"e\u0301\" = 0;\n  a = 1;\n}\n",
     # bytes that are not UTF-8 (a file saved as Latin-1): there is no text for the library to work on, so every command is an error
@@ -61,6 +64,12 @@ def library(cmd, text):
         # "free of syntax errors" is tree-sitter's verdict on the input, not the library's own flag
         ok = (not G.parse_cst(text).has_error) and (not src.contains_error) and src.rebuild() == text
         return ("OK\n", 0) if ok else ("Fail\n", 1)
+    if cmd and cmd[0] in ("set", "rm"):
+        from bounded import nixgen as G
+
+        if G.parse_cst(text).has_error:
+            # a source with a syntax error is an error for every edit (tree-sitter's verdict, not the library's own flag)
+            return ("", "nonzero")
     if cmd and cmd[0] == "set" and len(cmd) == 3:
         try:
             out = set_value(parse(text), cmd[1], cmd[2])
@@ -163,7 +172,7 @@ def run(tier, seed):
     t0 = time.time()
     items = [(t, c, ch) for t in TEXTS for c in COMMANDS for ch in ("stdin", "file")]
     if tier == "quick":
-        items = [it for i, it in enumerate(items) if it[2] == "file" or it[0] in ("canonical", "erroneous", "empty", "erroneous-leading-newline", "latin1-comment")]
+        items = [it for i, it in enumerate(items) if it[2] == "file" or it[0] in ("canonical", "erroneous", "empty", "erroneous-leading-newline", "latin1-comment", "erroneous-double-comma-formals")]
     with mp.get_context("fork").Pool(16) as pool:
         res = pool.map(eval_case, items, chunksize=2)
         hist = pool.apply(inprocess_history)
